@@ -9,7 +9,7 @@
 From Coq Require Import List NArith Lia Bool PeanoNat.
 From Coq Require Import ZifyBool ZifyN ZifyNat.
 From Minimq Require Import Bytes Varint Utf8 Props Ser De Reader Spec Arena Core Show Machine Parse Run Util Lts Refine
-  ArenaLemmas ArenaOps Inv Quota Status Persist Frames Limits Reach WireInv Chunking Wire Measure Terminate KeepAlive ConnectOk Healthy Owed.
+  ArenaLemmas ArenaOps Inv Quota Status Persist Frames Limits Reach WireInv Chunking Wire Measure Terminate KeepAlive ConnectOk PingQuiet Healthy Owed.
 Import ListNotations.
 Local Open Scope N_scope.
 
@@ -206,16 +206,13 @@ Proof.
   assert (Sr' : map re_st (ob_ret (s_ob (w_sess ex_conn))) = [SWrite 0]) by (vm_compute; reflexivity).
   assert (Na : packet_available (s_reader (w_sess ex_conn)) = false) by (vm_compute; reflexivity).
   assert (Bl' : lenN (ob_buf (s_ob (w_sess ex_conn))) <= BIG) by (vm_compute; intros X; discriminate X).
+  assert (Q1 : PQ ex_conn) by (vm_compute; reflexivity).
   assert (H1 : Hd ex_conn).
-  { unfold Hd.
+  { split; [|exact Q1]. unfold Hc.
     split; [exact Sc|]. split; [exact Lv|]. split; [exact I1|]. split; [exact Mp|].
-    split; [intros d E; pose proof (eq_trans (eq_sym Np) E) as X; discriminate X|]. split; [left; exact Ka|].
     split; [intros d E; pose proof (eq_trans (eq_sym Pt) E) as X; discriminate X|].
     split; [exact Bl'|]. split; [apply (one_fresh ce_st); exact Sc'|]. split; [apply (one_fresh le_st); exact Sl'|apply (one_fresh re_st); exact Sr']. }
-  assert (H2 : PQ ex_frag).
-  { unfold PQ. split.
-    - left. exact (eq_trans (f_equal (fun s => rt_ka_ms (s_rt s)) Ef) Ka).
-    - intros d E. pose proof (eq_trans (eq_sym (eq_trans (f_equal (fun s => rt_next_ping (s_rt s)) Ef) Np)) E) as X. discriminate X. }
+  assert (H2 : PQ ex_frag) by (vm_compute; reflexivity).
   split; [exact (proj1 I0)|]. split; [exact Ec|]. split; [exact H1|]. split; [exact Na|].
   split; [exact (eq_trans Ef Ec)|]. split; [|exact H2].
   exact (eq_ind_r (fun s => WInv s) I1 Ef).
